@@ -48,7 +48,12 @@ RULE = ("each run is either (a) a branch-isolation scenario: 1-4 branches of 1-3
         "0-12 operations fill(v) / compute-or-request / scribble(result i) / scribble(filled j), "
         "values bare, with an empty or with a nested context; non-trivial = two or more branches "
         "with a non-empty flow, or at least one scribble after a compute; distinct = distinct "
-        "abstracted event-kind sequences")
+        "abstracted event-kind sequences"
+        " Since the seeded rounds also: branches that are nested Splits / Zips of two copies of"
+        " their chain, contexts of class lena.context.Context, one Variable and one UpdateContext"
+        " instance shared by all branches, flows of bare user objects (hashable, mutable) and"
+        " 1-tuples of them; accumulators VectorizeStore, Graph and SplitIntoBins with two-result"
+        " cells; results of one call must share nothing either.")
 REAL = ["lena.core.Split (run, fill, compute, request)", "lena.flow.Zip", "lena.core.FillComputeSeq",
         "lena.core.FillRequestSeq", "lena.core.FillRequest", "lena.core.Sequence",
         "lena.variables.Variable", "lena.context.UpdateContext", "lena.output.MakeFilename",
